@@ -168,6 +168,8 @@ pub struct Ctx {
     extra: Map<String, Value>,
     pub out: String,
     pub sub: String,
+    case_t0: std::time::Instant,
+    timing: bool,
 }
 
 impl Ctx {
@@ -193,6 +195,8 @@ impl Ctx {
             extra: Map::new(),
             out: String::new(),
             sub: String::new(),
+            case_t0: std::time::Instant::now(),
+            timing: std::env::var_os("PMVERIF_TIMING").is_some(),
         }
     }
 
@@ -240,6 +244,7 @@ impl Ctx {
     /// to attribute a worker death (abort, stack overflow) to the exact case.
     pub fn begin(&mut self, idx: u64) {
         self.cur_case = idx;
+        self.case_t0 = std::time::Instant::now();
         if let Some(f) = &self.progress {
             let mut buf = [0u8; 16];
             buf[..8].copy_from_slice(&idx.to_le_bytes());
@@ -249,6 +254,9 @@ impl Ctx {
     }
 
     pub fn end(&mut self, idx: u64) {
+        if self.timing && self.case_t0.elapsed().as_millis() > 500 {
+            eprintln!("case {idx}: {} ms", self.case_t0.elapsed().as_millis());
+        }
         if let Some(f) = &self.progress {
             let mut buf = [0u8; 16];
             buf[..8].copy_from_slice(&idx.to_le_bytes());
